@@ -39,7 +39,7 @@ def run_suite(driver, suite: Suite) -> dict:
         hist[branch or impl.split(" ")[0]] += 1
         if impl != model:
             dis.append({"suite": suite.name, "request": line, "impl": impl, "model": model})
-    distinct = len(set(c[0] for c in suite.cases))
+    distinct = getattr(suite, "distinct_override", None) or len(set(c[0] for c in suite.cases))
     return {"suite": suite.name, "cases": len(suite.cases), "distinct": distinct, "branches": dict(hist),
             "disagreements": dis, "exhaustive": suite.exhaustive, "rule": suite.rule,
             "samples": [{"request": c[0], "answer": c[1]} for c in suite.cases[:: max(1, len(suite.cases) // 5)][:5]]}
